@@ -98,11 +98,12 @@ class SimThreadState:
     """Kernel-side record of a simulated thread."""
     __slots__ = ('tid', 'name', 'state', 'gate', 'woken', 'wait_token', 'waitq',
                  'wait_what', 'os_ident', 'obj', 'exc', 'done_waiters', 'daemon',
-                 'frame_holder')
+                 'frame_holder', 'priority')
 
     def __init__(self, tid, name, obj):
         self.tid = tid
         self.name = name
+        self.priority = 0
         self.state = NEW
         self.gate = _real_allocate_lock()
         self.gate.acquire()
@@ -120,7 +121,8 @@ class SimThreadState:
 class Sim:
     def __init__(self, decisions, line_mean=0, p_stall=0.0, stall_window=0.0,
                  sleep_jitter=0.0, trace_roots=(), max_steps=2_000_000,
-                 keep_log=False, jitter_rng=None, max_time=3600.0, max_no_progress=400_000):
+                 keep_log=False, jitter_rng=None, max_time=3600.0, max_no_progress=400_000,
+                 p_starve=0.0, starve_len=200, pct=0, pct_horizon=20000):
         global SIM
         SIM = self
         self.dec = decisions
@@ -136,6 +138,18 @@ class Sim:
         self.line_budget = 1 << 30
         self.p_stall = p_stall
         self.stall_window = stall_window
+        # starvation: a pre-empted thread is not scheduled again for a while as long as anything else can run (a thread
+        # that lost the CPU at an awkward point: a slow core, a page fault, the GIL going elsewhere)
+        self.p_starve = p_starve
+        self.starve_len = starve_len
+        self.starved = {}
+        self.starvations = 0
+        # PCT (probabilistic concurrency testing, Burckhardt et al. 2010): every thread gets a random priority, the
+        # runnable thread with the highest priority always runs, and at pct-1 random steps the running thread drops
+        # below all others.  Finds orderings of small depth that uniform random choice reaches with tiny probability.
+        self.pct = pct
+        self.pct_points = sorted(self.dec.choose(pct_horizon) for _ in range(max(0, pct - 1))) if pct else []
+        self.pct_low = 0
         self.sleep_jitter = sleep_jitter
         self.jitter_rng = jitter_rng or random.Random(0)
         self.trace_roots = tuple(trace_roots)
@@ -191,6 +205,7 @@ class Sim:
 
     def new_thread(self, name, obj):
         ts = SimThreadState(len(self.threads), name, obj)
+        ts.priority = (self.dec.choose(1 << 20) + 1) if self.pct else 0
         self.threads.append(ts)
         self.live.append(ts)
         return ts
@@ -265,7 +280,7 @@ class Sim:
             if self.over and ts is not None:
                 raise SimAbort()
             return
-        self._schedule(ts)
+        self._schedule(ts, preempted=True)
 
     def preempt(self):
         self.preemptions += 1
@@ -383,6 +398,25 @@ class Sim:
                     self.stalls += 1
                     self._fire_next_event()
                     continue
+            if self.p_starve:
+                if preempted and cur.state == RUNNABLE and cur.tid not in self.starved and len(runnable) > 1 and \
+                        self.dec.flip(self.p_starve):
+                    self.starved[cur.tid] = self.steps + self.dec.budget(self.starve_len)
+                    self.starvations += 1
+                    self.log('starve', cur.tid, self.starved[cur.tid] - self.steps)
+                if self.starved:
+                    for tid in [k for k, v in self.starved.items() if v <= self.steps]:
+                        del self.starved[tid]
+                    cands = [t for t in runnable if t.tid not in self.starved]
+                    if cands:
+                        runnable = cands
+            if self.pct:
+                while self.pct_points and self.pct_points[0] <= self.steps:
+                    self.pct_points.pop(0)
+                    self.pct_low -= 1
+                    cur.priority = self.pct_low
+                pick = max(runnable, key=lambda t: (t.priority, -t.tid))
+                break
             pick = runnable[self.dec.choose(len(runnable))]
             break
         if self.line_mean:
